@@ -21,6 +21,15 @@ Label = z3.DeclareSort("Label")      # abstract strings (tree labels, function s
 Fn = z3.DeclareSort("Fn")            # opaque objects (sympy expressions, callables)
 
 
+LABELS = {}        # concrete string -> Label constant (shared with Engine.label_of; distinct strings are distinct labels)
+
+
+def label_const(s):
+    if s not in LABELS:
+        LABELS[s] = z3.Const("lbl:" + s, Label)
+    return LABELS[s]
+
+
 class Unsupported(Exception):
     """The construct is outside the verified subset: nothing is known (never a violation)."""
 
@@ -336,6 +345,12 @@ def ite(c, a, b):
         return VTuple([ite(c, x, y) for x, y in zip(a.items, b.items)])
     if isinstance(a, VStr) and isinstance(b, VStr) and a.s == b.s:
         return a
+    if isinstance(a, VStr) and isinstance(b, (VStr, VLabel)):
+        a = VLabel(label_const(a.s))
+    if isinstance(b, VStr) and isinstance(a, VLabel):
+        b = VLabel(label_const(b.s))
+    if isinstance(a, VLabel) and isinstance(b, VLabel):
+        return VLabel(z3.If(c, a.t, b.t))
     if isinstance(a, VNone) and not isinstance(b, VNone):
         return VMaybeNone(c, b.val if isinstance(b, VMaybeNone) else b) if not isinstance(b, VMaybeNone) \
             else VMaybeNone(z3.Or(c, b.isnone), b.val)
